@@ -37,7 +37,7 @@ RULE = ('case = one seeded history (config + PRNG seed). non-trivial = history w
         'attempts of one message; distinct by (backend, per-message outcome-sequence shape, pool config)')
 ASSUMPTIONS = ['the relay probe\'s per-recipient report is what "reported delivered by the relay" means',
                'a bounce factory returning None is a documented way to suppress a bounce and counts as reported']
-REQUIRED_HITS = ['attempt-outcomes-observed', 'histories-judged', 'recipients-ledgered', 'real-relay-histories',
+REQUIRED_HITS = ['attempt-outcomes-observed', 'histories-judged', 'recipients-ledgered', 'big-envelope-retry-attempts', 'real-relay-histories',
                  'real-relay-http-failures-consumed', 'unreported-recipients-ledgered']
 SHARDS = {'quick': 12, 'thorough': 16}
 BUDGET = {'quick': 70, 'thorough': 800}
@@ -97,6 +97,8 @@ def gen_cases(tier, seed, shard, nshards):
                    'bounce_none_p': rnd.choice([0, 0, 0.3]),
                    'pool_objects': rnd.random() < 0.25,
                    'prepop': rnd.choice([0, 0, 1]), 'steps': rnd.choice([20, 35])}
+            if rnd.random() < 0.12:
+                cfg['body_kb'] = rnd.choice([20, 40, 70])     # larger than one AIO chunk / socket read
             yield {'cfg': cfg, 'seed': rnd.randrange(1 << 40)}
 
 
@@ -112,6 +114,9 @@ def _hits(lab, H, R):
     R.hit('unreported-recipients-ledgered', sum(1 for e in lab.events if e[1] == 'attempt_end'
                                                 for c, _ in e[5].values() if c == 'A'))
     R.hit('recipients-ledgered', sum(len(i['rc']) for i in H.accepted.values()))
+    if lab.cfg.get('body_kb'):
+        # envelopes larger than one storage chunk that were read back for a later attempt
+        R.hit('big-envelope-retry-attempts', sum(1 for e in lab.events if e[1] == 'attempt_start' and e[4] >= 1))
     R.count('bounces-enqueued', sum(1 for e in lab.events if e[1] == 'bounce_enqueued'))
     R.count('exhaustions', sum(1 for e in lab.events if e[1] == 'backoff' and e[4] is None))
 
